@@ -22,13 +22,17 @@ PYREL = {"eq": lambda a, b: a == b, "ne": lambda a, b: a != b, "lt": lambda a, b
 KINDS = ("int", "cal", "float")            # IntParameter(v) / FloatParameter(r, raw=v) / FloatParameter(r)
 # a fourth kind, used by the single-comparison and history harnesses: "bool" = BoolParameter(bool(v), raw=v) (derived value 0 / 1, raw value v)
 KINDS4 = KINDS + ("bool",)
-LITERALS = ("0", "5", "-2", "2.5", "abc")
+# a fifth kind, single-comparison harness only: "str" = StrParameter(label, raw=v) (an enumerated parameter: derived value a label - possibly the
+# EMPTY string -, raw value an integer); labels and literals are compared as strings
+KINDS5 = KINDS4 + ("str",)
+LABELS = ("", "ON", "5", "abc")
+LITERALS = ("0", "5", "-2", "2.5", "abc", "")
 
 META = {
     "level": "model_checking",
     "claim": "With the referenced parameters' values and raw values symbolic (integers in [-2^15, 2^15), reals unconstrained; zero, negative and "
              "integer-versus-float operand pairs are therefore ordinary assignments), z3 proves for every operator spelling (16), both value "
-             "selectors, four parameter kinds (integer, calibrated float, float, boolean) and a listed set of literals that the real Comparison/Condition.evaluate return exactly the "
+             "selectors, five parameter kinds (integer, calibrated float, float, boolean, and - single comparisons - string labels including the empty string) and a listed set of literals that the real Comparison/Condition.evaluate return exactly the "
              "truth value of the mathematical relation (or an error when the literal cannot be read in the value's type), for every "
              "BooleanExpression tree shape up to 4 leaves / depth 3 (thorough: 5 leaves) that evaluation equals the recursive AND/OR of the "
              "leaf relations, that one Comparison / Condition object evaluated on two packets in a row (the parameter being of a different kind in each) is right both times, that comparison lists are conjunctions, and that discrete lookups return the value of the first entry whose "
@@ -39,8 +43,7 @@ META = {
                "thorough": {"tree leaves": 5, "depth": 3, "int range": "[-32768, 32767]", "lookup entries": 3},
                "both": {"wide integers": "values in [-2^63, 2^64) against literals 2^53, 2^53+1, 2^64-1, -2^63, 2^63-1"}},
     "stubs": ["warnings.warn recorded"],
-    "outside_claim": ["string / bytes operands", "NaN and infinities", "float rounding (reals)", "lookup entries whose value is 0 (the string "
-                      "length loop treats a zero value as 'no match'; documented in DESIGN.md C07)"],
+    "outside_claim": ["bytes operands (the library has no way to read a literal as bytes)", "two-parameter conditions between strings", "NaN and infinities", "float rounding (reals)"],
     "assumptions": [],
 }
 
@@ -74,6 +77,10 @@ class Params:
             elif k == "bool":
                 raw = bv.SymInt(v, nb=16)
                 self.packet[name] = lib.common.BoolParameter(bool(raw), raw)
+            elif k == "str":
+                self.labels = getattr(self, "labels", {})
+                self.labels[i] = LABELS[ctx.choose(f"label{i}", len(LABELS))]
+                self.packet[name] = lib.common.StrParameter(self.labels[i], lib.common.IntParameter(bv.SymInt(v, nb=16)))
             else:
                 self.packet[name] = lib.common.FloatParameter(bv.SymReal(r))
 
@@ -84,6 +91,8 @@ class Params:
             return "int", self.v[i]
         if k == "cal":
             return ("real", self.r[i]) if calibrated else ("int", self.v[i])
+        if k == "str":
+            return ("str", self.labels[i]) if calibrated else ("int", self.v[i])
         if k == "bool":
             W = bv.W
             return ("int", z3.If(self.v[i] != 0, z3.BitVecVal(1, W), z3.BitVecVal(0, W))) if calibrated else ("int", self.v[i])
@@ -91,6 +100,8 @@ class Params:
 
     def inputs(self):
         d = {"kinds": list(self.kinds)}
+        for i, lab in getattr(self, "labels", {}).items():
+            d[f"label{i}"] = lab
         for i in range(len(self.kinds)):
             d[f"v{i}"] = bv.SymInt(self.v[i])
             d[f"r{i}"] = bv.SymReal(self.r[i])
@@ -103,7 +114,9 @@ def as_real(sel):
 
 
 def rel_term(op, a, b):
-    """mathematical relation between two selected values (int/int stays BV, anything else over the reals)"""
+    """mathematical relation between two selected values (int/int stays BV, str/str is decided on the spot, anything else over the reals)"""
+    if a[0] == "str" or b[0] == "str":
+        return z3.BoolVal(PYREL[op](a[1], b[1]))
     if a[0] == "int" and b[0] == "int":
         return REL[op](a[1], b[1])
     return REL[op](as_real(a), as_real(b))
@@ -112,6 +125,8 @@ def rel_term(op, a, b):
 def literal_for(sel_type, lit):
     """the literal read in the type of the value: ('int', term) / ('real', term) / None if it cannot be read"""
     try:
+        if sel_type == "str":
+            return "str", lit
         if sel_type == "int":
             return "int", z3.BitVecVal(int(lit), bv.W)
         return "real", bv.real_of(float(lit))
@@ -151,13 +166,13 @@ class ComparisonH(Harness):
     def run(self, ctx):
         lib = self.lib
         spellings = list(OPS)
-        cfg = choose(ctx, "cfg", len(spellings) * 2 * len(KINDS4) * len(LITERALS) * 2)
+        cfg = choose(ctx, "cfg", len(spellings) * 2 * len(KINDS5) * len(LITERALS) * 2)
         sp = spellings[cfg % len(spellings)]
         cfg //= len(spellings)
         cal = bool(cfg % 2)
         cfg //= 2
-        kind = KINDS4[cfg % 4]
-        cfg //= 4
+        kind = KINDS5[cfg % 5]
+        cfg //= 5
         lit = LITERALS[cfg % len(LITERALS)]
         cfg //= len(LITERALS)
         in_packet = bool(cfg % 2)          # False: the parameter is not in the packet, compared against the current raw value
@@ -167,7 +182,7 @@ class ComparisonH(Harness):
         if in_packet:
             sel = P.selected(0, cal)
         else:
-            if kind in ("int", "bool"):
+            if kind in ("int", "bool", "str"):
                 cur = lib.common.IntParameter(bv.SymInt(P.v[0], nb=16))
                 sel = ("int", P.v[0])
             else:
@@ -355,9 +370,9 @@ class TreeH(Harness):
         return result(cls, obl, observe={"result": _r(got) if exc is None else None, "exc": exc, "cls": "ran"}, inputs=inputs)
 
 
-LOOKUPS = [  # entries: ([(param index, op, literal, calibrated)], value)
+LOOKUPS = [  # entries: ([(param index, op, literal, calibrated)], value)   (entry 4 has the value 0: a zero-length field is a legal looked-up length)
     ([(0, "==", "5", True)], 16.0), ([(0, ">", "0", True), (1, "<", "2", False)], 24.0), ([(1, "!=", "0", True)], 8.0),
-    ([(2, ">=", "-2", True)], 32.0),
+    ([(2, ">=", "-2", True)], 32.0), ([(1, ">", "3", True)], 0.0),
 ]
 
 
@@ -436,7 +451,7 @@ def jobs(tier):
     for n, s in enumerate(sh):
         out.append({"name": f"tree-{n}", "h": "tree", "params": {"shape": s, "rot": n, "kindsets": KINDSETS}, "must_reach": [], "split": 8, "chunk": 60})
     for which in ("single", "binary", "string"):
-        for perm in ([(0, 1, 2), (2, 1, 0), (1, 3, 0)] if which != "single" else [(0,), (1,)]):
+        for perm in ([(0, 1, 2), (2, 1, 0), (1, 3, 0), (4, 1, 3), (0, 4, 2)] if which != "single" else [(0,), (1,), (4,)]):
             out.append({"name": f"lookup-{which}-{''.join(map(str, perm))}", "h": "lookup", "params": {"which": which, "perm": perm}, "must_reach": []})
     return out
 
@@ -463,6 +478,8 @@ def _mkpacket(i):
             pkt[f"P{n}"] = common.FloatParameter(r, common.IntParameter(v))
         elif k == "bool":
             pkt[f"P{n}"] = common.BoolParameter(bool(v), v)
+        elif k == "str":
+            pkt[f"P{n}"] = common.StrParameter(i[f"label{n}"], common.IntParameter(v))
         else:
             pkt[f"P{n}"] = common.FloatParameter(r)
         vals.append((v, r))
@@ -501,7 +518,7 @@ def concrete(req):
         comp = C.Comparison(i["lit"], "P0" if i["in_packet"] else "OTHER", operator=i["op"], use_calibrated_value=i["cal"])
         cur = None
         if not i["in_packet"]:
-            cur = common.IntParameter(vals[0][0]) if i["kinds"][0] in ("int", "bool") else common.FloatParameter(vals[0][1])
+            cur = common.IntParameter(vals[0][0]) if i["kinds"][0] in ("int", "bool", "str") else common.FloatParameter(vals[0][1])
         import warnings
         with warnings.catch_warnings():
             warnings.simplefilter("ignore")
@@ -544,6 +561,8 @@ def _tuple(x):
 
 def _sel(i, n, cal):
     k = i["kinds"][n]
+    if k == "str":
+        return (str, i[f"label{n}"]) if cal else (int, i[f"v{n}"])
     if k == "bool":
         return int, (int(i[f"v{n}"] != 0) if cal else i[f"v{n}"])
     if k == "int" or (k == "cal" and not cal):
@@ -573,7 +592,13 @@ def judge(req, got):
         if i["in_packet"]:
             t, a = _sel(i, 0, i["cal"])
         else:
-            t, a = (int, i["v0"]) if i["kinds"][0] in ("int", "bool") else (float, _frac(i["r0"]))
+            t, a = (int, i["v0"]) if i["kinds"][0] in ("int", "bool", "str") else (float, _frac(i["r0"]))
+        if t is str:
+            want = PYREL[OPS[i["op"]]](a, i["lit"])
+            desc = f"Comparison(P {i['op']} {i['lit']!r}, calibrated=True) on the label {a!r}"
+            if got["exc"] is not None or got["result"] is not want:
+                return "reproduced", f"{desc}: expected {want}, got {got['result']!r} exc={got['exc']}"
+            return "not-reproduced", "agrees"
         try:
             b = lit(t, i["lit"])
         except ValueError:
